@@ -165,6 +165,24 @@ func (ls *lockSets) heldAt(at ssa.Instruction) []string {
 // holdsLock: is a lock whose name matches re held at `at`, locally or by contract (every caller holds
 // a matching lock, or the owner-level lock "X!", at its call site; goroutine starts never hold).
 func (w *World) holdsLock(f *ssa.Function, at ssa.Instruction, re *regexp.Regexp, lift int) (bool, string) {
+	if at.Parent() != f {
+		chain := siteChain(f, at)
+		if chain == nil {
+			return false, "instruction is not under " + funcKey(f)
+		}
+		why := ""
+		for _, l := range chain {
+			ok, s := w.holdsLock(l.fn, l.at, re, 0)
+			if ok {
+				return true, s
+			}
+			why = s
+		}
+		if lift > 0 {
+			return w.holdsLock(f, chain[len(chain)-1].at, re, lift)
+		}
+		return false, why
+	}
 	ls := w.computeLocks(f)
 	held := ls.heldAt(at)
 	for _, h := range held {
@@ -174,6 +192,9 @@ func (w *World) holdsLock(f *ssa.Function, at ssa.Instruction, re *regexp.Regexp
 	}
 	why := "in " + funcKey(f) + " held=[" + strings.Join(held, ",") + "]"
 	if lift <= 0 {
+		if site := transparentSite(f); site != nil {
+			return w.holdsLock(site.Parent(), site, re, 0)
+		}
 		return false, why
 	}
 	callers := w.callersOf(f)
